@@ -42,7 +42,7 @@ impl Prop for P {
     fn meta() -> Meta {
         Meta {
             level: "exploration",
-            rule: "valid streams (grammar: final blocks ending on each of the 8 bit offsets, stored/fixed/dynamic/empty last blocks; crate compressor; system zlib; files) followed by 0..64 unrelated trailing bytes (random, zeros, 0xFF, bytes that look like another header), decoded through the flat decoder, 32 KiB ring, inflate() (3 driver loops), mz_inflate (total_in/next_in) and tinfl_decompress under generated chunkings and output budgets; oracle: sum of consumed == exact encoded length from the grammar's bit writer / reference inflater, output exact, later calls consume nothing. Non-trivial = trailing length >= 1 and the chunk in which the stream ended extended >= 1 byte past its end; distinct by case fingerprint",
+            rule: "valid streams (grammar: final blocks ending on each of the 8 bit offsets, stored/fixed/dynamic/empty last blocks; crate compressor; system zlib; files) followed by 0..64 unrelated trailing bytes (random, zeros, 0xFF, bytes that look like another header), decoded through the flat decoder, 32 KiB ring, inflate() (3 driver loops), mz_inflate (total_in/next_in) and tinfl_decompress under generated chunkings and output budgets; zlib streams additionally with the checksum comparison switched off (IGNORE_ADLER32 / ZLibIgnoreChecksum) and under a chunking cut 1..5 bytes before the end of the stream, then byte by byte; oracle: sum of consumed == exact encoded length from the grammar's bit writer / reference inflater, output exact, later calls consume nothing. Non-trivial = trailing length >= 1 and the chunk in which the stream ended extended >= 1 byte past its end; distinct by case fingerprint",
             assumptions: &["encoded length = ceil(bits/8) of header+deflate data (+4 for zlib), computed independently by the grammar's bit writer and the reference inflater (they are compared in the self-check)"],
             dbg: false,
             simd: false,
